@@ -157,12 +157,12 @@ def _akai_image():
     sf = akaiw.sample_file
     prog = c20.build_program(1, [2], [150])[0]
     return akaiw.partition([
-        ("VOL A", [("KICK+1", 0x73, sf("KICK+1", _words(50, 1)), None), ("LEAD PRG", 0xf0, prog, None), ("SNARE", 0xf3, sf("SNARE", _words(60, 2), rate=22050), None),
+        ("VOL A", [("KICK+1", 0x73, sf("KICK+1", _words(50, 1)), None), ("LEAD PRG", 0xf0, prog, None), ("SNARE", 0xf3, sf("SNARE", _words(60, 2), rate=22050, loop_type=1, loops=[(50, 3, 30, 9999), (40, 0, 20, 500)]), None),
                    ("PAD -L", 0x73, sf("PAD -L", _words(40, 3)), None), ("PAD -R", 0x73, sf("PAD -R", _words(40, 4)), None)], None),
         ("VOL B", [("HAT", 0x73, sf("HAT", _words(30, 5)), None), ("HAT", 0x73, sf("HAT", _words(20, 6)), None)], None)], size_sectors=16)
 
 
-AKAI_OPS = [("ls", ""), ("ls", "A:"), ("ls", "A:/VOL A"), ("ls", "a/vol a/KICK 1"), ("ls", "Q:/NOPE"), ("ls", "A:/VOL A/LEAD PRG"), ("export", None)]
+AKAI_OPS = [("ls", ""), ("ls", "A:/VOL A"), ("ls", "a/vol a/KICK 1"), ("ls", "A:/VOL A/SNARE"), ("ls", "Q:/NOPE"), ("ls", "A:/VOL A/LEAD PRG"), ("export", None)]
 
 
 def _open_akai(img_bytes):
@@ -186,7 +186,7 @@ def _open_cdda():
     return CompactDiskAudioImageAdapter.from_bin_cue(io.BytesIO(bin_), parse_cue_sheet(list(cue)))
 
 
-ROLAND_OPS = [("ls", ""), ("ls", "VolA"), ("ls", "VolA/Perf0"), ("ls", "VolA/Perf0/Smp1"), ("ls", "VolA/Perf0/Patch0"), ("ls", "nope/x"), ("export", None)]
+ROLAND_OPS = [("ls", ""), ("ls", "VolB/Perf1"), ("ls", "VolA/Perf0"), ("ls", "VolA/Perf0/Smp1"), ("ls", "VolA/Perf0/Patch0"), ("ls", "nope/x"), ("export", None)]
 _ROLAND = []
 
 
@@ -196,29 +196,37 @@ def _roland_image():
         from vf.props import c02
         _ROLAND.append(rolandw.build({
             "volumes": [("VolA", [0]), ("VolB", [1])], "performances": [("Perf0", [0]), ("Perf1", [1])], "patches": [("Patch0", [0]), ("Patch1", [1])],
-            "partials": [("Part0", [0, 1, 2]), ("Part1", [2, 3])],
+            "partials": [("Part0", [0, 1, 2]), ("Part1", [2, 3, 4])],
             "samples": [dict(name="Smp0", words=c02._words(500, 1)), dict(name="Smp1", words=c02._words(5000, 2), chain=[1, 0], mode=3),
-                        dict(name="Smp2", words=c02._words(300, 3), mode=5), dict(name="Smp3", words=c02._words(700, 4), cluster_top=1)]}))
+                        dict(name="Smp2", words=c02._words(300, 3), mode=5), dict(name="Smp3", words=c02._words(700, 4), cluster_top=1),
+                        # a second sample living in Smp1's chain (same FAT head), starting one cluster in
+                        dict(name="Smp4", words=c02._words(5000, 2)[9216:], share_with=1, cluster_top=1)]}))
     return _ROLAND[0]
 
 
 def _do(image, op):
-    """observable result of one operation"""
+    """observable result of one operation: ("ls", text) or ("export", sorted [(path relative to the destination's parent, file bytes)], text).
+    Export really writes below a fresh temporary directory (nothing in the package is rebound), which is read back and removed."""
     kind, arg = op
     buf = io.StringIO()
     if kind == "ls":
         with contextlib.redirect_stdout(buf):
             actions.ls_action(image, arg)
         return ("ls", buf.getvalue())
+    import shutil
+    import tempfile
+    top = tempfile.mkdtemp(prefix="vf_exp_")
     out = {}
-    saved = (structural.export_wav, structural.os)
-    structural.export_wav = lambda sample, path: out.__setitem__(path, WavSampleBuilder.build(sample))
-    structural.os = type("O", (), {"path": os.path, "makedirs": staticmethod(lambda d: None)})
     try:
         with contextlib.redirect_stdout(buf):
-            actions.export_samples_to_wav(image, "out")
+            actions.export_samples_to_wav(image, os.path.join(top, "out"))
+        for dp, _dn, fns in os.walk(top):
+            for fn in fns:
+                full = os.path.join(dp, fn)
+                with open(full, "rb") as fh:
+                    out[os.path.relpath(full, top).replace(os.sep, "/")] = fh.read()
     finally:
-        structural.export_wav, structural.os = saved
+        shutil.rmtree(top, ignore_errors=True)
     return ("export", sorted(out.items()), buf.getvalue())
 
 
@@ -307,11 +315,27 @@ RUNS = ["smpl_extract.structural:Traversable.children", "smpl_extract.akai.volum
 META = {
     "assumptions": ["C16.hist: histories are chosen by the solver and then concrete (bounded exhaustive over the decision tree); images are a 128 KB AKAI image "
                     "(2 volumes, special characters, duplicate names, an L/R pair) and a 3-track CDDA image built by independent writers",
-                    "ls output and exported bytes are observed by capturing stdout and by rebinding structural.export_wav / structural.os",
+                    "ls output is captured from stdout; export really writes below a temporary directory that is read back",
                     "Roland histories are out of reach (>= 2.8 MB image, minutes per parse under tracing)"],
     "trusted": ["CPython 3.12", "z3 5.1", "CrossHair 0.0.110", "vf.symx", "vf.akaiw (independent AKAI writer)", "construct 2.10"],
     "out_of_claim": ["Roland images", "histories longer than 3 operations", "concurrent use of one image object"],
 }
+
+
+def hist_obligations(tier):
+    q = tier == "quick"
+    T = 170 if q else 900
+    obs = []
+    for fmt in (0, 1, 2):
+        for n in ((1, 2, 3) if q else (1, 2, 3, 4)):
+            if n >= 3:
+                for first in range(5 if fmt == 1 else 7):
+                    obs.append(dict(name=f"C16.hist/{('akai', 'cdda', 'roland')[fmt]}/n={n}/first={first}", module="vf.props.c16", func="h_hist",
+                                    extra_pre=[f"fmt == {fmt}", f"n == {n}", f"o0 == {first}"], timeout=T, runs=RUNS, sym="the remaining operations", bound=f"{n}-operation histories", stubs=["export to a temporary directory, read back"]))
+            else:
+                obs.append(dict(name=f"C16.hist/{('akai', 'cdda', 'roland')[fmt]}/n={n}", module="vf.props.c16", func="h_hist", extra_pre=[f"fmt == {fmt}", f"n == {n}"],
+                                timeout=T, runs=RUNS, sym="every operation of the history", bound=f"{n}-operation histories over {5 if fmt == 1 else 7} operations", stubs=["export to a temporary directory, read back"]))
+    return obs
 
 
 def obligations(tier, seed):
@@ -329,15 +353,7 @@ def obligations(tier, seed):
     for o in c06.obligations(tier, seed):
         if o["name"].startswith("C06.levels"):
             obs.append(dict(o, name=o["name"].replace("C06.levels", "C16.memo/children")))
-    for fmt in (0, 1, 2):
-        for n in ((1, 2, 3) if q else (1, 2, 3, 4)):
-            if n >= 3:
-                for first in range(5 if fmt == 1 else 7):
-                    obs.append(dict(name=f"C16.hist/{('akai', 'cdda', 'roland')[fmt]}/n={n}/first={first}", module="vf.props.c16", func="h_hist",
-                                    extra_pre=[f"fmt == {fmt}", f"n == {n}", f"o0 == {first}"], timeout=T, runs=RUNS, sym="the remaining operations", bound=f"{n}-operation histories", stubs=["in-memory export"]))
-            else:
-                obs.append(dict(name=f"C16.hist/{('akai', 'cdda', 'roland')[fmt]}/n={n}", module="vf.props.c16", func="h_hist", extra_pre=[f"fmt == {fmt}", f"n == {n}"],
-                                timeout=T, runs=RUNS, sym="every operation of the history", bound=f"{n}-operation histories over {5 if fmt == 1 else 7} operations", stubs=["in-memory export"]))
+    obs += hist_obligations(tier)
     obs.append(dict(name="C16.ro", engine="P", module="vf.props.c16", func="p_readonly", params={}, timeout=60, runs=RUNS, sym="-", bound="AST of every module", stubs=[]))
     for o in c11.obligations(tier, seed):
         if o["name"].startswith("C11.step") and (not q or "stream0/read" in o["name"]):
